@@ -346,7 +346,7 @@ theorem load_named (C : Ctx h main reg T rank) : ∀ (r : Nat) (o : Nat) (n : St
       -- unfold the computation
       have hload : loadRec (object T (f' + 1)) (some n) st1 ob.cls (encFields reg ob.fields) = (st3, .ok i) := by
         unfold loadRec
-        simp only [eres, any_late_false _ hearly, any_cb_false _ hearly, Bool.and_false, Bool.false_and,
+        simp only [eres, any_late_false _ hearly, any_cb_false _ hearly, Bool.false_and,
           if_false, Bool.false_eq_true]
         rw [latePhase_allEarly _ _ _ hearly]
         simp only [st3, i, hwork2, List.erase_cons_head]
